@@ -1,7 +1,7 @@
 #!/bin/sh
 # run every check of one tier on the current /repo tree, in order; prints a one-line verdict per property
 tier=${1:-quick}
-cd "$(dirname "$0")"
+cd "$(dirname "$0")"; mkdir -p build
 for p in $(python3 -c "import json;print(' '.join(c['property_id'] for c in json.load(open('MANIFEST.json'))['checks']))"); do
   start=$(date +%s)
   ./verif check $p --tier $tier > build/last_$p.log 2>&1
